@@ -360,7 +360,7 @@ class Lexer:
                 if not all(c in "0123456789abcdefABCDEF" for c in tempbuf):
                     raise CklSyntaxError(
                         f"Invalid hex escape \\x{tempbuf} in string",
-                        SourcePos(fname, line, column)
+                        SourcePos(fname, tline, tcolumn)
                     )
                 token += chr(int(tempbuf, 16))
                 tempbuf = ""
@@ -402,7 +402,7 @@ class Lexer:
                 if not all(c in "0123456789abcdefABCDEF" for c in tempbuf):
                     raise CklSyntaxError(
                         f"Invalid hex escape \\x{tempbuf} in string",
-                        SourcePos(fname, line, column)
+                        SourcePos(fname, tline, tcolumn)
                     )
                 token += chr(int(tempbuf, 16))
                 tempbuf = ""
